@@ -340,6 +340,9 @@ def LimitOrder.proto (o : LimitOrder) : Bytes :=
 def Deposit.proto (d : Deposit) : Bytes := pBytes 1 d.addr ++ pVarint 2 d.amount ++ pBytes 4 d.id
 def Withdraw.proto (w : Withdraw) : Bytes := pBytes 1 w.addr ++ pVarint 2 w.percent ++ pBytes 4 w.id
 
+/-- Σ amounts of the orders and deposits of a batch (what the holding pool holds for it) -/
+def Batch.pending (b : Batch) : Nat := (b.orders.map (·.amount)).sum + (b.deposits.map (·.amount)).sum
+
 /-- `Batch.IsEmpty` -/
 def Batch.isEmpty (b : Batch) : Bool :=
   b.receiptHash.isEmpty && b.receipts.isEmpty && b.orders.isEmpty && b.withdrawals.isEmpty && b.deposits.isEmpty
@@ -902,6 +905,9 @@ inductive Op
   | fund (a : Bytes) (n : Nat)
   /-- harness set-up, not a chain operation: write a pool (`SetPool`) -/
   | setPool (id : Nat) (p : Pool)
+  /-- harness set-up, not a chain operation: store a next batch (`SetDexBatch`) and mint its pending amounts into
+  the holding pool (`PoolAdd`) — used to start a case with a batch near the per-batch caps -/
+  | seedNext (chain : Nat) (b : Batch)
   | create (m : CreateOrder)
   | edit (m : EditOrder)
   | delete (chain : Nat) (id : Bytes)
@@ -918,6 +924,7 @@ inductive Op
 def apply (s : State) : Op → M State
   | .fund a n => accountAdd s a n
   | .setPool id p => .ok (setPool s id p)
+  | .seedNext c b => .ok (setNext (poolAdd s (holdingId c) b.pending) c b)
   | .create m => createOrder s m
   | .edit m => editOrder s m
   | .delete c id => deleteOrderMsg s c id
